@@ -39,6 +39,8 @@ struct S1 {
 	TB tb;
 }
 struct S2 { S1 s; E1 e; date d; guid g; }
+struct S5 { uint8[] raw; uint8[][] rows; map[string, uint8[]] blobs; byte[] b; array[uint8] pre; }
+message M6 { 1 -> uint8[] raw; 2 -> map[uint8, uint8[]] m; }
 readonly struct S3 { map[string, S2] m; TC[] cs; }
 [opcode(0x11)]
 struct S4 { E2 e; }
@@ -105,6 +107,45 @@ union UC { 1 -> struct UCA { TC t; }
 }
 `
 
+// a schema that uses neither date nor guid nor maps: what a leak of "used types" from other schemas would change
+const c14Plain = `const string go_package = "example.com/x/plain";
+enum PE { A = 1; B = 2; }
+struct P1 { int32 a; string b; PE e; float64 f; }
+message P2 { 1 -> P1 p; 2 -> string[] names; 3 -> int64 n; }
+union P3 { 1 -> struct P3A { bool x; } 2 -> message P3B { 1 -> uint16 y; } }
+`
+
+// schemas generated earlier in the same process: every primitive as map key and value, as array element, as field
+func c14Others() []string {
+	prims := []string{"bool", "byte", "uint8", "uint16", "int16", "uint32", "int32", "uint64", "int64", "float32", "float64", "string", "guid", "date"}
+	keys := []string{"bool", "byte", "uint8", "uint16", "int16", "uint32", "int32", "uint64", "int64", "string", "guid", "date"}
+	var out []string
+	var b strings.Builder
+	b.WriteString("struct Journal { map[date, string] entries; map[date, int32] counts; map[guid, bool] flags; }\n")
+	out = append(out, b.String())
+	b.Reset()
+	for ki, k := range keys {
+		fmt.Fprintf(&b, "struct K%d {\n", ki)
+		for vi, v := range prims {
+			fmt.Fprintf(&b, "\tmap[%s, %s] m%d;\n", k, v, vi)
+		}
+		b.WriteString("}\n")
+	}
+	out = append(out, b.String())
+	b.Reset()
+	b.WriteString("struct Arr {\n")
+	for vi, v := range prims {
+		fmt.Fprintf(&b, "\t%s[] a%d;\n\t%s[][] aa%d;\n\tmap[string, %s[]] ma%d;\n", v, vi, v, vi, v, vi)
+	}
+	b.WriteString("}\nmessage ArrM {\n")
+	for vi, v := range prims {
+		fmt.Fprintf(&b, "\t%d -> %s[] a%d;\n", vi+1, v, vi)
+	}
+	b.WriteString("}\n")
+	out = append(out, b.String())
+	return out
+}
+
 func c14NoImports() string {
 	s := strings.Replace(c14Main, "import \"./dep_b.bop\"\nimport \"./dep_c.bop\"\n", "", 1)
 	return s + "struct TB { int64 v; string w; }\nstruct TC { uint16 v; }\n"
@@ -145,6 +186,13 @@ func runC14(c *Ctx) (int, error) {
 	_ = os.WriteFile(filepath.Join(dir, "dep_b.bop"), []byte(c14DepB), 0o644)
 	_ = os.WriteFile(filepath.Join(dir, "dep_c.bop"), []byte(c14DepC), 0o644)
 	_ = os.WriteFile(filepath.Join(dir, "flat.bop"), []byte(c14NoImports()), 0o644)
+	_ = os.WriteFile(filepath.Join(dir, "plain.bop"), []byte(c14Plain), 0o644)
+	var otherFiles []string
+	for i, text := range c14Others() {
+		p := filepath.Join(dir, fmt.Sprintf("other%d.bop", i))
+		_ = os.WriteFile(p, []byte(text), 0o644)
+		otherFiles = append(otherFiles, p)
+	}
 	type scen struct {
 		Root       string     `json:"root"`
 		API        string     `json:"api"`
@@ -154,6 +202,7 @@ func runC14(c *Ctx) (int, error) {
 		Goroutines int        `json:"goroutines"`
 		Repeat     int        `json:"repeat"`
 		Pre        [][]string `json:"pre"`
+		PreFiles   []string   `json:"prefiles"`
 		imports    bool
 	}
 	var scens []scen
@@ -164,16 +213,19 @@ func runC14(c *Ctx) (int, error) {
 				if c.Tier != "thorough" && oi > 0 && (spare+gor+oi+c.Seed)%2 == 0 {
 					continue
 				}
-				scens = append(scens, scen{filepath.Join(dir, "flat.bop"), "Generate", opts, "separate", spare, gor, 6, nil, false})
-				scens = append(scens, scen{filepath.Join(dir, "main.bop"), "Generate", opts, "separate", spare, gor, 6, nil, true})
-				scens = append(scens, scen{filepath.Join(dir, "main.bop"), "Generate", opts, "combined", spare, gor, 6, nil, true})
+				scens = append(scens, scen{filepath.Join(dir, "flat.bop"), "Generate", opts, "separate", spare, gor, 6, nil, nil, false})
+				if spare == 0 {
+					scens = append(scens, scen{filepath.Join(dir, "plain.bop"), "Generate", opts, "separate", spare, gor, 6, nil, nil, false})
+				}
+				scens = append(scens, scen{filepath.Join(dir, "main.bop"), "Generate", opts, "separate", spare, gor, 6, nil, nil, true})
+				scens = append(scens, scen{filepath.Join(dir, "main.bop"), "Generate", opts, "combined", spare, gor, 6, nil, nil, true})
 			}
-			scens = append(scens, scen{filepath.Join(dir, "main.bop"), "Validate", nil, "separate", spare, gor, 10, nil, true})
+			scens = append(scens, scen{filepath.Join(dir, "main.bop"), "Validate", nil, "separate", spare, gor, 10, nil, nil, true})
 		}
 	}
 	for _, gor := range []int{2, 8} {
-		scens = append(scens, scen{filepath.Join(dir, "flat.bop"), "Format", nil, "separate", 0, gor, 10, nil, false})
-		scens = append(scens, scen{filepath.Join(dir, "main.bop"), "ReadFile", nil, "separate", 0, gor, 10, nil, true})
+		scens = append(scens, scen{filepath.Join(dir, "flat.bop"), "Format", nil, "separate", 0, gor, 10, nil, nil, false})
+		scens = append(scens, scen{filepath.Join(dir, "main.bop"), "ReadFile", nil, "separate", 0, gor, 10, nil, nil, true})
 	}
 	var events []map[string]interface{}
 	runOnce := func(s scen) (res map[string]interface{}, race bool, crash string) {
@@ -242,6 +294,24 @@ func runC14(c *Ctx) (int, error) {
 		}
 		// a function of its input alone: the result must not depend on which calls the process made before
 		if s.API == "Generate" && s.Goroutines == 2 && ev["crash"] == "" && len(hashes) > 0 {
+			// ... nor on which OTHER schemas it has read, validated and generated before
+			for k := 0; k <= len(otherFiles); k++ {
+				hs := s
+				hs.PreFiles = otherFiles
+				if k < len(otherFiles) {
+					hs.PreFiles = otherFiles[k : k+1]
+				}
+				hs.Goroutines, hs.Repeat = 1, 2
+				res, _, crash := runOnce(hs)
+				if crash != "" {
+					ev["crash"] = "after generating other schemas: " + crash
+					break
+				}
+				if h, _ := res["hash"].(string); h != hashes[0] {
+					ev["history"] = false
+				}
+				ncalls += 2*len(hs.PreFiles) + 2
+			}
 			for _, pre := range histories {
 				hs := s
 				hs.Pre = pre
@@ -271,7 +341,7 @@ func runC14(c *Ctx) (int, error) {
 	}
 	reportParseVerdicts(c, vs, dummy, events, "c14")
 	cov := Coverage{"evaluations": len(events)*3 + ncalls, "distinct_nontrivial": len(events), "samples": []interface{}{events[0], events[len(events)/2], events[len(events)-1]},
-		"rule":   "scenarios = {no imports, separate, combined} x spare capacity {0,1,3} of each of the File's five slices x goroutines {2,8} x {Generate under 3 option sets, Validate, Format, ReadFile} on a schema with >= 4 entries in every map-typed table (messages, union branches, enums, consts); each scenario runs in 3 fresh processes of a -race build, 6-10 calls per goroutine; results must be byte-identical within and across processes and after earlier Generate calls with 8 other settings histories in the same process, the File (incl. s[:cap(s)]) unchanged, and the race detector silent; GenConcurrency.tla explores all interleavings of the design (copy-on-append) for 3 goroutines x 2 appends x spare 0..2",
+		"rule":   "scenarios = {no imports, separate, combined} x spare capacity {0,1,3} of each of the File's five slices x goroutines {2,8} x {Generate under 3 option sets, Validate, Format, ReadFile} on a schema with >= 4 entries in every map-typed table (messages, union branches, enums, consts); each scenario runs in 3 fresh processes of a -race build, 6-10 calls per goroutine; results must be byte-identical within and across processes and after earlier Generate calls with 8 other settings histories and after reading/validating/generating 3 other schemas (every primitive as map key, map value, array element) in the same process, the File (incl. s[:cap(s)]) unchanged, and the race detector silent; GenConcurrency.tla explores all interleavings of the design (copy-on-append) for 3 goroutines x 2 appends x spare 0..2",
 		"states": states + st, "transitions": trans + tr, "traces_validated_against_impl": total["ok"] + total["known"], "scenarios": len(events), "open_deviations": devs,
 		"explanation": "race-freedom of the executed schedules is decided by Go's race detector (happens-before based, so it covers every schedule with the same synchronisation structure); the TLA+ model explores the schedules of the design; there is no replay of a particular interleaving into the code (no scheduler hook)"}
 	return c.Finish("exploration", cov, []string{"Go's race detector reports every pair of conflicting accesses without a happens-before edge in the executed run", "determinism across map iteration orders is sampled by 3 fresh processes x up to 80 calls per scenario"}), nil
